@@ -173,9 +173,9 @@ func c12Sequential(c *explore.Ctx) {
 		depth     int
 		fixed     string
 	}
-	spaces := []sp{{"E", "ROLL", 3, ""}, {"S2", "ROLL", 2, ""}, {"S2", "ROLL1", 2, ""}, {"EM2", "ROLL", 3, "bak"}, {"S2", "ROLL", 4, "bak"}, {"E", "ROLL1", 4, "bak"}, {"LG15", "ROLL1", 2, ""}}
+	spaces := []sp{{"E", "ROLL", 3, ""}, {"S2", "ROLL", 2, ""}, {"S2", "ROLL1", 2, ""}, {"EM2", "ROLL", 3, "bak"}, {"S2", "ROLL", 4, "bak"}, {"E", "ROLL1", 4, "bak"}, {"LG15", "ROLL1", 2, ""}, {"LG", "ROLL", 4, ""}}
 	if c.Thorough() {
-		spaces = []sp{{"E", "ROLL", 5, ""}, {"S2", "ROLL", 4, ""}, {"S2", "ROLL1", 3, ""}, {"EM2", "ROLL", 5, "bak"}, {"E", "ROLL1", 4, ""}, {"S4", "ROLL", 3, ""}, {"S2", "ROLL", 4, "bak"}, {"E", "ROLL1", 5, "bak"}, {"S2", "ROLL1", 3, "bak"}, {"LG15", "ROLL1", 3, ""}}
+		spaces = []sp{{"E", "ROLL", 5, ""}, {"S2", "ROLL", 4, ""}, {"S2", "ROLL1", 3, ""}, {"EM2", "ROLL", 5, "bak"}, {"E", "ROLL1", 4, ""}, {"S4", "ROLL", 3, ""}, {"S2", "ROLL", 4, "bak"}, {"E", "ROLL1", 5, "bak"}, {"S2", "ROLL1", 3, "bak"}, {"LG15", "ROLL1", 3, ""}, {"LG", "ROLL", 5, ""}}
 	}
 	for _, x := range spaces {
 		if c.Expired() || c.NViolations() > 0 {
